@@ -13,9 +13,9 @@ import (
 // baseEnv builds the spec environment of the top-level function: parameters
 // by name, entry state as old().
 func (e *Enc) baseEnv(f *frame, st *State) *SpecEnv {
-	env := &SpecEnv{vars: map[string]Val{}, st: st, old: e.entry, f: f, fc: e.fc}
+	env := &SpecEnv{vars: map[string]Val{}, params: map[string]Val{}, st: st, old: e.entry, f: f, fc: e.fc}
 	for i, p := range f.fn.Params {
-		env.vars[p.Name()] = f.params[i]
+		env.params[p.Name()] = f.params[i]
 	}
 	for i, fv := range f.fn.FreeVars {
 		if i < len(f.params)-len(f.fn.Params) {
@@ -92,7 +92,7 @@ func (e *Enc) loopClauses(li *loopInfo) []*Clause {
 	if e.fc == nil {
 		return nil
 	}
-	return e.fc.Loops[li.ordinal]
+	return append(append([]*Clause{}, e.fc.Loops[0]...), e.fc.Loops[li.ordinal]...)
 }
 
 func (e *Enc) loopHead(f *frame, li *loopInfo, st *State) {
